@@ -287,9 +287,15 @@ class Report:
             samples.append({"obligation": o.id, "function": o.fn, "result": o.status, "backend": o.backend})
         for b in self.bounded[:3]:
             samples.extend(_jsonable(b.samples[:2]))
+        counted = [o for o in self.obligations if o.kind != "known-finding"]
+        unb = [o for o in counted if o.scope == "all-shapes"]
+        shb = [o for o in counted if o.scope != "all-shapes"]
         cov = {
-            "obligations": n_ob, "discharged": n_ok, "undecided": n_und,
-            "refuted": n_ob - n_ok - n_und,
+            "obligations": len(unb), "discharged": sum(1 for o in unb if o.status == smt.PROVED),
+            "undecided": n_und, "refuted": n_ob - n_ok - n_und,
+            "obligations_note": "'obligations'/'discharged' count only obligations valid for all shapes; shape-bounded symbolic obligations "
+                                "(complete per enumerated shape, all entries and paths) are counted separately below; bounded stand-ins are never counted",
+            "shape_bounded_obligations_discharged": sum(1 for o in shb if o.status == smt.PROVED),
             "checker_cmd": f"./check {self.prop} --tier {self.tier}",
             "trusted_base": self.trusted,
             "evaluations": max(evals, 0), "distinct_nontrivial": distinct,
